@@ -188,6 +188,10 @@ impl Report {
     pub fn set_meta(&mut self, key: &str, v: Value) {
         _ = self.meta.insert(key.to_string(), v);
     }
+    /// is a witness for this signature already recorded? (lets callers skip building the case)
+    pub fn has_violation(&self, signature: &str) -> bool {
+        self.violations.iter().any(|v| v.signature == signature)
+    }
     pub fn elapsed(&self) -> f64 {
         self.start.map_or(0.0, |s| s.elapsed().as_secs_f64())
     }
